@@ -189,4 +189,12 @@ def processCommand (e : Emu) (cmd : Bytes) : Py (Option Bytes × Bytes × List C
     else .ok (none, e.store, [])
   else .ok (none, e.store, [])
 
+/-- `process_command` of a tree with the repair of finding F23 (property C07): an `IndexError` raised while a
+truncated command is parsed is caught and the command ignored (no response, store untouched - the parsing
+comes before every callback) -/
+def processCommandR (f23 : Bool) (e : Emu) (cmd : Bytes) : Py (Option Bytes × Bytes × List Call) :=
+  match processCommand e cmd with
+  | .error .index => if f23 then .ok (none, e.store, []) else .error .index
+  | r => r
+
 end NfcVerif.T3Emu
